@@ -299,6 +299,11 @@ def purge(ctx: Any) -> List[Ob]:
                     obs.append(ob(R, cs.caller, cs.node, f'`{p}` of {g.name} is iterated more than once per call (line {getattr(where[0], "lineno", 0)}), so the argument must be re-iterable', not src, f'`{norm(src[0])[:70]}` is a one-shot iterator: it is exhausted after the first pass' if src else ''))
     if n_multi == 0:
         raise AnalysisError('anchor vanished: no purge helper iterates its records more than once (expected: once per queue)')
+    # a description that is registered again starts from rebuilt records: its record memos are dropped on every path of the
+    # clearing routine the registry calls before inserting (shared with C03.MEMO)
+    from .c03 import memo_clear_obligations
+
+    obs.extend(memo_clear_obligations(ctx, R))
     return obs
 
 
@@ -329,7 +334,36 @@ def complete(ctx: Any) -> List[Ob]:
                 if direct or wrapped:
                     tgt = call_name(inner if direct else inner.args[0])
                     obs.append(ob(R, f, c, f'{n}() blocks until the broadcast task returned by {tgt} has finished (all three transmissions made)', wrapped, f'the task returned by {tgt} is not awaited: {n}() returns before the sequence has been transmitted' if direct else ''))
+    # the async closing routines wait for the goodbye sequence itself: the coroutine that withdraws every service is the
+    # direct operand of an `await`.  Handed to a wrapper that can cancel it (wait_for, a timeout scope, shield-less gather
+    # with a deadline) the sequence is cut short whenever it takes longer than the quiet 250 ms -- a registration that
+    # completes during the goodbyes makes it go round again -- and the remaining goodbyes are never sent
+    parents: Dict[int, ast.AST] = {}
+    sites = 0
+    for cls_full in (ZC, 'zeroconf.asyncio.AsyncZeroconf'):
+        for n, f in sorted(prog.cls(cls_full).methods.items()):
+            if not f.is_async:
+                continue
+            for a in ast.walk(f.node):
+                for ch in ast.iter_child_nodes(a):
+                    parents[id(ch)] = a
+            for c in walk_local_ordered(f.node):
+                if isinstance(c, ast.Call) and call_name(c) == 'async_unregister_all_services':
+                    sites += 1
+                    par = parents.get(id(c))
+                    scope = [a for a in _ancestors(parents, c) if isinstance(a, (ast.AsyncWith, ast.With)) and any(isinstance(x, ast.Call) and call_name(x) in ('timeout', 'timeout_at', 'wait_for', 'move_on_after', 'fail_after') for it in a.items for x in ast.walk(it.context_expr))]
+                    obs.append(ob(R, f, par if par is not None else c, f'{n}() awaits the goodbye sequence itself (no deadline that can cancel it part-way)', isinstance(par, ast.Await) and not scope, f'the coroutine is handed to `{norm(par.func) if isinstance(par, ast.Call) else type(par).__name__}`' if not isinstance(par, ast.Await) else ('under a timeout scope' if scope else '')))
+    if sites < 1:
+        raise AnalysisError('anchor vanished: an async closing routine that calls async_unregister_all_services')
     return obs
+
+
+def _ancestors(parents: Dict[int, ast.AST], n: ast.AST) -> List[ast.AST]:
+    out = []
+    while id(n) in parents:
+        n = parents[id(n)]
+        out.append(n)
+    return out
 
 
 @rule('C08.REVALIDATE', 'N', expect_min=1)
